@@ -232,3 +232,19 @@ def git_head(root=REPO):
         return subprocess.run(["git", "-C", root, "rev-parse", "HEAD"], capture_output=True, text=True).stdout.strip()
     except Exception:
         return "unknown"
+
+
+def remove_item(text, header_regex, which=0):
+    """Return `text` without the item whose header matches (attributes/doc comments included)."""
+    item = extract_item(text, header_regex, which)
+    if text.count(item) != 1:
+        raise Inconclusive(f"item to remove is not unique: /{header_regex}/")
+    return text.replace(item, "")
+
+
+def cut_before(text, marker_regex):
+    """Drop everything before the line on which `marker_regex` first matches (in code or comments)."""
+    m = re.search(marker_regex, text, re.M)
+    if not m:
+        raise Inconclusive(f"marker not found: /{marker_regex}/")
+    return text[text.rfind("\n", 0, m.start()) + 1:]
